@@ -576,6 +576,14 @@ class Flow(object):
             parts = [self.sym(x, node, depth + 1) for x in e.elts]
             name = "tuple(%s)" % ", ".join(repr(p) for p in parts)
             return self._composite(name, parts, ("tuple", parts))
+        if isinstance(e, ast.BoolOp) and isinstance(e.op, ast.Or) and \
+                len(e.values) == 2 and isinstance(e.values[1], ast.Constant) \
+                and isinstance(e.values[1].value, int):
+            # "x or 1": x when truthy, else the constant - an opaque numeric
+            # term (the rule states what it knows about it)
+            a = self.sym(e.values[0], node, depth + 1)
+            nm = "or(%r, %r)" % (a, e.values[1].value)
+            return self._composite(nm, [a], ("or", a, e.values[1].value))
         if isinstance(e, (ast.Compare, ast.BoolOp)):
             cname = self._condname(e, node, depth)
             return self._composite("cond(%s)" % cname,
